@@ -39,7 +39,19 @@ RunBad(e) ==
         \cup (IF ToSet(e.listed) = SpecListed(M, nm, sf.check) THEN {} ELSE {"ListedIsSpec"})
         \cup (IF e.error = "none" THEN {} ELSE {"NoError"})
 
-Bad(e) == IF e.ev = "Flags" THEN FlagsBad(e) ELSE IF e.ev = "Run" THEN RunBad(e) ELSE {"UnknownEvent"}
+\* the pytest entry point: the same selection semantics, options given as such (no argv scanner of tdda's own)
+PyRunBad(e) ==
+    LET M  == ModOf(e)
+        nm == ToSet(e.names)
+        ex == {<<e.executed[i][1], e.executed[i][2]>> : i \in 1..Len(e.executed)}
+    IN  (IF nm \subseteq DOMAIN M THEN {} ELSE {"NotWellShaped"})
+        \cup (IF ex = SpecExecuted(M, nm, e.tagged, e.check) THEN {} ELSE {"ExecutedIsSpec"})
+        \cup (IF Cardinality(ex) = Len(e.executed) THEN {} ELSE {"EachOnce"})
+        \cup (IF ToSet(e.listed) = SpecListed(M, nm, e.check) THEN {} ELSE {"ListedIsSpec"})
+        \cup (IF e.error = "none" THEN {} ELSE {"NoError"})
+
+Bad(e) == IF e.ev = "Flags" THEN FlagsBad(e) ELSE IF e.ev = "Run" THEN RunBad(e)
+          ELSE IF e.ev = "PyRun" THEN PyRunBad(e) ELSE {"UnknownEvent"}
 
 Init == l = 1
 Next == l <= Len(Tr) /\ l' = l + 1
